@@ -6,6 +6,18 @@ use vh::util::*;
 
 include!(concat!(env!("CARGO_MANIFEST_DIR"), "/gen/corpus_gen.rs"));
 
+/// attributes are rendered one per line; an element wrapper puts them after a first line
+fn raw_line_offset(raw: &RawOutcome, src: &str) -> usize {
+    match raw.attrs.first() {
+        Some(a) => {
+            let first_line = syn::spanned::Spanned::span(a).start().line;
+            let _ = src;
+            first_line - 1
+        }
+        None => 0,
+    }
+}
+
 fn main() {
     std::panic::set_hook(Box::new(|_| {}));
     let args: Vec<String> = std::env::args().collect();
@@ -25,7 +37,38 @@ fn main() {
         let did = c["did"].as_u64().unwrap();
         let src = attrs_text(&c["attrs"]);
         let raw = dispatch(did, &src);
-        let mm = vh::recv::compare(&c["expect"], &raw);
+        let mut mm = vh::recv::compare(&c["expect"], &raw);
+        // C17 soundness, behaviourally: writing the suggested name instead must no longer be rejected as unknown
+        for l in &raw.leaves {
+            if l.kind == "unknown" && !l.alt.is_empty() {
+                if let Some(sp) = l.span {
+                    let lines: Vec<&str> = src.split('\n').collect();
+                    // spans are relative to the rendered element: attributes start on line 2 for wrapped elements
+                    if sp.l1 == sp.l2 {
+                        let off = if c["trait_elem"].is_null() { 0 } else { 0 };
+                        let _ = off;
+                        let li = sp.l1 - 1 - raw_line_offset(&raw, &src);
+                        if li < lines.len() {
+                            let line = lines[li];
+                            let chars: Vec<char> = line.chars().collect();
+                            if sp.c2 <= chars.len() {
+                                let item: String = chars[sp.c1..sp.c2].iter().collect();
+                                if item.starts_with(l.name.as_str()) {
+                                    let fixed_item = format!("{}{}", l.alt, &item[l.name.len()..]);
+                                    let mut nl: Vec<String> = lines.iter().map(|s| s.to_string()).collect();
+                                    nl[li] = format!("{}{}{}", chars[..sp.c1].iter().collect::<String>(), fixed_item, chars[sp.c2..].iter().collect::<String>());
+                                    let again = dispatch(did, &nl.join("\n"));
+                                    if again.leaves.iter().any(|x| x.kind == "unknown" && x.name == l.alt && x.path == l.path) {
+                                        mm.push(vh::recv::Mismatch { class: "alt", why: format!("`{}` was suggested for `{}` but is itself rejected as unknown at {:?}", l.alt, l.name, l.path) });
+                                    }
+                                    *counts.entry("suggestions_retried".into()).or_default() += 1;
+                                }
+                            }
+                        }
+                    }
+                }
+            }
+        }
         *counts.entry(if c["expect"]["ok"] == true { "expected_ok".into() } else { "expected_err".into() }).or_default() += 1;
         if !c["expect"]["ok"].as_bool().unwrap() {
             *counts.entry(format!("err_leaves_{}", c["expect"]["leaves"].as_array().unwrap().len().min(4))).or_default() += 1;
